@@ -3,9 +3,9 @@
 (* Mode "subs": the canonical subject sequence.                                *)
 EXTENDS Regex, Json, IOUtils
 CONSTANTS Mode, MaxLen, Tier
-ASTs == CASE Tier = 2 -> Atoms \cup Size2 \cup Opaque
-          [] Tier = 3 -> Atoms \cup Size2 \cup Size3 \cup Opaque
-          [] Tier = 4 -> Atoms \cup Size2 \cup Size3 \cup Size4 \cup Opaque
+ASTs == CASE Tier = 2 -> Atoms \cup Size2 \cup Opaque \cup Anchored
+          [] Tier = 3 -> Atoms \cup Size2 \cup Size3 \cup Opaque \cup Anchored
+          [] Tier = 4 -> Atoms \cup Size2 \cup Size3 \cup Size4 \cup Opaque \cup Anchored
 EmitOut == IF Mode = "subs" THEN [i \in 1..Len(Subjects(MaxLen)) |-> [s |-> Subjects(MaxLen)[i]]]
            ELSE SetToSeq({[ast |-> a, pat |-> Render(a)] : a \in ASTs})
 ASSUME ndJsonSerialize(IOEnv.VERIF_VECTORS, EmitOut)
